@@ -37,7 +37,7 @@ impl Creds {
     }
 }
 
-const ALPHABET: &[char] = &['a', 'b', 'Z', '0', ':', ' ', 'é', 'ß', '中', '😀', '\u{0}', '/', 'p'];
+const ALPHABET: &[char] = &['a', 'b', 'Z', '0', ':', ' ', 'é', 'ß', '中', '😀', '\u{0}', '/', 'p', '"', 'z', '\t'];
 
 pub fn gen_string(ch: &mut Choices, max_chars: u64) -> String {
     let n = ch.range(0, max_chars);
@@ -56,11 +56,46 @@ pub fn gen_creds(ch: &mut Choices) -> Creds {
     }
 }
 
+/// HMAC zero-pads keys shorter than its block size, so keys that differ only in trailing NUL
+/// bytes are the *same* HMAC key (RFC 2104); "another key" must differ beyond that.
+pub fn same_hmac_key(a: &Creds, b: &Creds) -> bool {
+    let norm = |c: &Creds| {
+        let mut k = c.reference().key();
+        while k.last() == Some(&0) {
+            k.pop();
+        }
+        k
+    };
+    norm(a) == norm(b)
+}
+
 /// A credential that differs from `c` (guaranteed different key material by construction of the
 /// returned description, checked by the caller where it matters).
 pub fn gen_other_creds(ch: &mut Choices, c: &Creds) -> Creds {
-    let k = ch.below(6);
+    let k = ch.below(10);
+    // "nearly the same" keys: what a normalising (trimming, unquoting, case-folding) key
+    // derivation would wrongly identify with the original
+    let near = |s: &str, k: u64| -> String {
+        match k {
+            6 => format!("\"{s}\""),
+            7 => format!(" {s} "),
+            8 => {
+                if s.chars().any(|c| c.is_ascii_alphabetic()) {
+                    s.chars().map(|c| if c.is_ascii_lowercase() { c.to_ascii_uppercase() } else { c.to_ascii_lowercase() }).collect()
+                } else {
+                    format!("{s}A")
+                }
+            }
+            _ => format!("{s}\""),
+        }
+    };
     let o = match (k, c) {
+        (6..=9, Creds::Short(p)) => Creds::Short(near(p, k)),
+        (6..=9, Creds::Long { user, realm, password }) => match ch.below(3) {
+            0 => Creds::Long { user: user.clone(), realm: near(realm, k), password: password.clone() },
+            1 => Creds::Long { user: near(user, k), realm: realm.clone(), password: password.clone() },
+            _ => Creds::Long { user: user.clone(), realm: realm.clone(), password: near(password, k) },
+        },
         // one character more
         (0, Creds::Short(p)) => Creds::Short(format!("{p}x")),
         (0, Creds::Long { user, realm, password }) => Creds::Long { user: user.clone(), realm: realm.clone(), password: format!("{password}x") },
@@ -76,7 +111,7 @@ pub fn gen_other_creds(ch: &mut Choices, c: &Creds) -> Creds {
         // different key under RFC 8489, so it is not generated here.
         _ => gen_creds(ch),
     };
-    if o.reference().key() == c.reference().key() {
+    if same_hmac_key(&o, c) {
         // e.g. both empty: force a difference
         match o {
             Creds::Short(p) => Creds::Short(format!("{p}#")),
@@ -92,7 +127,11 @@ pub fn gen_other_creds(ch: &mut Choices, c: &Creds) -> Creds {
 
 pub fn gen_addr(ch: &mut Choices) -> SocketAddr {
     let port = *ch.pick(&[3478u16, 1, 65535, 0, 5000, 5001]);
-    if ch.rare(1, 3) {
+    if ch.rare(1, 8) {
+        // IPv4-mapped IPv6: must stay distinct from the plain IPv4 address
+        let d = ch.below(4) as u16 + 1;
+        SocketAddr::new(IpAddr::V6(Ipv6Addr::new(0, 0, 0, 0, 0, 0xffff, 0xc000, 0x0200 | d)), port)
+    } else if ch.rare(1, 3) {
         let seg = ch.below(4) as u16;
         SocketAddr::new(IpAddr::V6(Ipv6Addr::new(0x2001, 0xdb8, 0, 0, 0, 0, seg, 1)), port)
     } else {
@@ -291,6 +330,26 @@ pub fn gen_tid(ch: &mut Choices) -> u128 {
     }
 }
 
+/// A 64-bit value that, some of the time, spells an attribute header when it ends a message.
+pub fn confusable_u64(ch: &mut Choices) -> u64 {
+    if ch.rare(1, 4) {
+        let hi: u64 = *ch.pick(&[0x8028_0004u64, 0x0008_0014, 0x001c_0020]);
+        (hi << 32) | ch.below(1 << 32)
+    } else {
+        ch.u64_any()
+    }
+}
+
+/// A library-built message sized to the very end of the 16-bit length range (one big raw
+/// attribute plus the seals of `variant`).
+pub fn gen_big_spec(ch: &mut Choices, creds: &Creds, variant: u64) -> MsgSpec {
+    let seal_bytes: usize = seals_of(variant, creds).iter().map(|s| match s { Seal::Sha1(_) => 24, Seal::Sha256(_) => 36, Seal::Fp => 8 }).sum();
+    let max = 65_532 - 4 - seal_bytes;
+    let delta = *ch.pick(&[0usize, 1, 2, 3, 4, 8, 12, 16, 20, 24, 28, 32, 36, 40, 44, 64, 100, 5000]);
+    let l = max - delta;
+    MsgSpec { class: ch.below(4) as u8, method: *ch.pick(&[1u16, 0, 0xfff, 3]), tid: gen_tid(ch), attrs: vec![TAttr::Raw(0x7f01, ch.bytes(l))], seals: seals_of(variant, creds) }
+}
+
 pub fn gen_tattr(ch: &mut Choices, pool: &[SocketAddr], big: usize) -> TAttr {
     let k = ch.below(18);
     match k {
@@ -298,8 +357,8 @@ pub fn gen_tattr(ch: &mut Choices, pool: &[SocketAddr], big: usize) -> TAttr {
         1 => TAttr::Priority(ch.below(1 << 32) as u32),
         2 => TAttr::Username(gen_string(ch, 10)),
         3 => TAttr::UseCandidate,
-        4 => TAttr::IceControlled(ch.u64_any()),
-        5 => TAttr::IceControlling(ch.u64_any()),
+        4 => TAttr::IceControlled(confusable_u64(ch)),
+        5 => TAttr::IceControlling(confusable_u64(ch)),
         6 => TAttr::XorMapped(*ch.pick(pool)),
         7 => TAttr::AltServer(*ch.pick(pool)),
         8 => TAttr::AltDomain(gen_string(ch, 10)),
@@ -441,6 +500,12 @@ pub fn gen_raw_value(ch: &mut Choices, ty: u16) -> Vec<u8> {
                 c[3] = 0;
             }
         }
+    }
+    if len >= 8 && ch.rare(1, 6) {
+        // payload whose tail looks like an attribute header (FINGERPRINT / integrity)
+        let pat: [u8; 4] = *ch.pick(&[[0x80, 0x28, 0x00, 0x04], [0x00, 0x08, 0x00, 0x14], [0x00, 0x1c, 0x00, 0x20]]);
+        let at = len - 8;
+        v[at..at + 4].copy_from_slice(&pat);
     }
     if matches!(ty, 0x0006 | 0x0014 | 0x0015 | 0x8022 | 0x8003) && ch.coin() {
         for b in v.iter_mut() {
